@@ -235,7 +235,7 @@ REN_PAIRS = [(x, y) for x in U for y in U if x != y]
 
 def multi_rename_histories(thorough):
     """every (rw, rw) prefix x every ordered 2-pair RENAME over {a,b,c} (36, chained and repeated names included: the pairs apply
-    left to right) [x every trailing rw statement and every 3-pair RENAME after one rw statement in thorough]"""
+    left to right) [x every trailing rw statement and every 3-pair RENAME of pairwise different pairs after one rw statement in thorough]"""
     for p1 in RW_KINDS:
         for p2 in RW_KINDS:
             for r1 in REN_PAIRS:
@@ -246,7 +246,8 @@ def multi_rename_histories(thorough):
             for r1 in REN_PAIRS:
                 for r2 in REN_PAIRS:
                     for r3 in REN_PAIRS:
-                        yield (p1, ("renm", (r1, r2, r3)))
+                        if len({r1, r2, r3}) == 3:  # a statement that repeats a pair is not valid SQL and the pair set cannot even represent it
+                            yield (p1, ("renm", (r1, r2, r3)))
                     for p3 in RW_KINDS:
                         yield (p1, ("renm", (r1, r2)), p3)
 
